@@ -231,23 +231,58 @@ func (p *Prog) Field(pkg, typ, field string) *types.Var {
 	return nil
 }
 
-// MethodObj returns the method object of pkg.typ (pointer or value receiver) named name.
-func (p *Prog) MethodObj(pkg, typ, name string) *types.Func {
+// FuncFound is called for every successfully resolved function anchor (used to write the golden signature table);
+// FuncRenamed is asked when an anchor's name no longer exists (re-identification of a renamed function by its
+// signature among the names that are new in its scope). Both are installed by package rules.
+var (
+	FuncFound   func(p *Prog, pkg, typ, name string, f *types.Func)
+	FuncRenamed func(p *Prog, pkg, typ, name string) *types.Func
+)
+
+// ScopeFuncs lists the functions of a scope: the methods of pkg.typ (declared and interface methods), or the
+// package-level functions of pkg when typ is empty.
+func (p *Prog) ScopeFuncs(pkg, typ string) []*types.Func {
+	var out []*types.Func
+	if typ == "" {
+		pk := p.Pkg(pkg)
+		if pk == nil || pk.Types == nil {
+			return nil
+		}
+		sc := pk.Types.Scope()
+		for _, nm := range sc.Names() {
+			if f, ok := sc.Lookup(nm).(*types.Func); ok {
+				out = append(out, f)
+			}
+		}
+		return out
+	}
 	n := p.Named(pkg, typ)
 	if n == nil {
 		return nil
 	}
 	for i := 0; i < n.NumMethods(); i++ {
-		if n.Method(i).Name() == name {
-			return n.Method(i)
-		}
+		out = append(out, n.Method(i))
 	}
 	if it, ok := n.Underlying().(*types.Interface); ok {
 		for i := 0; i < it.NumMethods(); i++ {
-			if it.Method(i).Name() == name {
-				return it.Method(i)
-			}
+			out = append(out, it.Method(i))
 		}
+	}
+	return out
+}
+
+// MethodObj returns the method object of pkg.typ (pointer or value receiver) named name.
+func (p *Prog) MethodObj(pkg, typ, name string) *types.Func {
+	for _, m := range p.ScopeFuncs(pkg, typ) {
+		if m.Name() == name {
+			if FuncFound != nil {
+				FuncFound(p, pkg, typ, name, m)
+			}
+			return m
+		}
+	}
+	if FuncRenamed != nil && p.Named(pkg, typ) != nil {
+		return FuncRenamed(p, pkg, typ, name)
 	}
 	return nil
 }
@@ -255,6 +290,15 @@ func (p *Prog) MethodObj(pkg, typ, name string) *types.Func {
 // FuncObj returns the package-level function object pkg.name.
 func (p *Prog) FuncObj(pkg, name string) *types.Func {
 	f, _ := p.Obj(pkg, name).(*types.Func)
+	if f != nil {
+		if FuncFound != nil {
+			FuncFound(p, pkg, "", name, f)
+		}
+		return f
+	}
+	if FuncRenamed != nil && p.Pkg(pkg) != nil {
+		return FuncRenamed(p, pkg, "", name)
+	}
 	return f
 }
 
